@@ -31,12 +31,14 @@ type bufferPool struct {
 func (b *bufferPool) Get() *bytes.Buffer {
 	if buffer, ok := b.Pool.Get().(*bytes.Buffer); ok {
 		buffer.Reset()
+		verifPoolGet(b, buffer)
 		return buffer
 	}
 	return bytes.NewBuffer(make([]byte, 0, initialBufferSize))
 }
 
 func (b *bufferPool) Put(buffer *bytes.Buffer) {
+	verifPoolPut(b, buffer)
 	if buffer.Cap() > maxRecycleBufferSize {
 		return
 	}
@@ -44,6 +46,7 @@ func (b *bufferPool) Put(buffer *bytes.Buffer) {
 }
 
 func (b *bufferPool) Wrap(data []byte, orig *bytes.Buffer) *bytes.Buffer {
+	verifPoolWrap(b, data, orig)
 	if cap(data) > orig.Cap() {
 		// Original buffer was too small, so we had to grow its slice to
 		// compute data.  Replace the buffer with the larger,
